@@ -237,7 +237,7 @@ fn num_text(kind: Kind, bits: u64) -> String {
     let r = match kind {
         Kind::F32 => serde_json::to_string(&f32::from_bits(bits as u32)),
         Kind::F64 => serde_json::to_string(&f64::from_bits(bits)),
-        Kind::I8 | Kind::I16 | Kind::I32 | Kind::I64 => serde_json::to_string(&(bits as i64)),
+        Kind::I8 | Kind::I16 | Kind::I32 | Kind::I64 | Kind::I128 => serde_json::to_string(&(bits as i64)),
         Kind::Bool => serde_json::to_string(&(bits != 0)),
         _ => serde_json::to_string(&bits),
     };
@@ -584,6 +584,20 @@ fn write_json<T: Serialize>(v: &T, plan: &JPlan) -> (Result<(), String>, Vec<u8>
 
 /// Execute one byte-level plan for type `T`.
 pub fn run_json<T: Subject>(plan: &JPlan, opts: RunOpts) -> Outcome {
+    // serde's own Content buffer (behind flatten / untagged) cannot carry 128-bit integers for
+    // any type, cgmath's or not: such values go through the plain slice reader instead
+    let wide = {
+        let mut k = Vec::new();
+        T::shape().leaf_kinds(&mut k);
+        k.iter().any(|x| matches!(x, Kind::I128 | Kind::U128))
+    };
+    let adjusted;
+    let plan = if wide && matches!(plan.reader, JReader::Flatten | JReader::Untagged) {
+        adjusted = JPlan { reader: JReader::Slice, ..plan.clone() };
+        &adjusted
+    } else {
+        plan
+    };
     let mut out = Outcome::default();
     let mut log = Fnv::default();
     let shape = T::shape();
